@@ -422,6 +422,22 @@ where
                 for (name, r) in fam {
                     ev.push(json!({"op": "CLPoK", "suite": suite, "key": ki, "n": n, "U": u, "mismatch": name, "res": b3(r)}));
                 }
+                // informational (F11): the range proof of a hidden attribute replaced by an honest range proof about
+                // ANOTHER commitment (to another in-range value): is it noticed?
+                if !u.is_empty() {
+                    let r = guard(|| {
+                        let mut pj2 = serde_json::to_value(&proof).unwrap();
+                        let gi = &cpk.g_bases[u[0]];
+                        let x2 = Integer::from(12345);
+                        let r2 = rng.bits(C::ln);
+                        let cv = (pow_signed_big(gi, &x2, &cpk.N) * pow_signed_big(&cpk.h, &r2, &cpk.N)).modulo(&cpk.N);
+                        let rp = Boudot2000RangeProof::prove::<C::HashAlg>(&x2, &make_commitment(&cv, &r2), gi, &cpk.h, &cpk.N, &Integer::from(0), &(Integer::from(2).pow(C::lm) - 1u32));
+                        pj2["CL03"]["range_proofs_commited_mi"][0] = serde_json::to_value(&rp).unwrap();
+                        let pp: PoKSignature<CL03<C>> = serde_json::from_value(pj2).unwrap();
+                        pp.proof_verify(&cpk, &ks.pk, &bases_n, &revealed, &u, n)
+                    });
+                    ev.push(json!({"op": "CLInfoLink", "suite": suite, "proof": "spok", "n": n, "U": u, "what": "range proof of hidden attribute replaced by a range proof about another commitment", "res": b3(r)}));
+                }
                 let pj = serde_json::to_value(&proof).unwrap();
                 let leaves = int_leaves(&pj);
                 ev.push(json!({"op": "CLFormat", "suite": suite, "proof": "spok", "n": n, "U": u, "trusted": false, "paths": leaves.iter().map(|l| norm_path(&l.0)).collect::<Vec<_>>()}));
